@@ -272,7 +272,7 @@ class SoulSeekClient:
 
         try:
             await command.send(self)
-        except Exception:
+        except (Exception, asyncio.CancelledError):
             if response and response_future:
                 response_future.cancel()
             raise
